@@ -705,8 +705,11 @@ class Streamix(Stream):
 
         # Remove finished
         if to_remove:
-          for snd in to_remove:
-            self._playing.remove(snd)
+          for snd in to_remove: # By identity: "==" might be overloaded
+            for idx, playing in enumerate(self._playing):
+              if playing is snd:
+                del self._playing[idx]
+                break
           to_remove = []
 
         # Tests whether there were any data (finite Streamix had finished?)
